@@ -27,10 +27,10 @@ func (e *Env) ResetIDNAUsed() { e.idnaUsed = false }
 
 func (e *Env) q(name string) bool { return e != nil && e.Quirks[name] }
 
-func isAlpha(r rune) bool  { return (r >= 'a' && r <= 'z') || (r >= 'A' && r <= 'Z') }
-func isDigit(r rune) bool  { return r >= '0' && r <= '9' }
-func isAlnum(r rune) bool  { return isAlpha(r) || isDigit(r) }
-func isHex(r rune) bool    { return isDigit(r) || (r >= 'a' && r <= 'f') || (r >= 'A' && r <= 'F') }
+func isAlpha(r rune) bool { return (r >= 'a' && r <= 'z') || (r >= 'A' && r <= 'Z') }
+func isDigit(r rune) bool { return r >= '0' && r <= '9' }
+func isAlnum(r rune) bool { return isAlpha(r) || isDigit(r) }
+func isHex(r rune) bool   { return isDigit(r) || (r >= 'a' && r <= 'f') || (r >= 'A' && r <= 'F') }
 func hexVal(r rune) int {
 	switch {
 	case r >= '0' && r <= '9':
